@@ -35,3 +35,5 @@ def run(rep, ctx, tier):
             ok, detail, where, n = R1.component(ctx, a, comp)
             rep.add("R1", "%s:%s" % (a.key, name), ok, detail, where or a.body.span, nontrivial=n > 0)
         rep.count("values_extracted_in_loops", R1D.run_values(rep, ctx, a, "R1d"))
+        # a verdict (or any other per-claim result) computed per loop iteration is accumulated, not overwritten
+        rep.count("bodies_with_loops", R1D.run_last_value(rep, ctx, a, "R1L"))
